@@ -630,6 +630,104 @@ def r18_flag_entries_number_zero_pool_place(idx, r):
     r7_child_locator(idx, Only(r, ["SpentFuelPool.add"]))
 
 
+def r19_regenerators_replace_the_table(idx, r):
+    """A routine that REGENERATES a lookup table (childrenByLocator / assembliesByName / blocksByName) exists because the table in hand may
+    be stale - names were renumbered, the core was unpickled or copied, assemblies were detached.  A stale table is not recognisable from
+    its own content (it is neither missing nor empty), so a regenerator must replace the table on EVERY normal path; a path that keeps
+    the previous table keeps every purged object and misses every renamed one.
+    Family, enumerated from the index over the methods a Core instance resolves (Core's MRO): (a) leaf regenerators - every method other
+    than __init__ that stores a whole new table `self.T = ...`; (b) delegating regenerators - every method that calls, outside an
+    exception handler, a method that may regenerate a table (closed transitively: self.m(), super().m(), Base.m(self)).  A lookup that
+    repairs a MISSING table inside its except-handler only (getBlockByName) is not a regenerator and is not in the family.  For every
+    (method, table) of the family the Flow engine decides must-pass-through: at every normal exit the table has been replaced (directly,
+    or through a callee already proven to replace it on all its paths - least fixpoint upwards from the leaves)."""
+    core = idx.cls(CORE)
+    tables = sorted(TABLE_WRITERS)
+    by_cls = {c.name: c for c in core.mro()}
+    meths = {}  # 'Class.name' -> FuncInfo, every definition in the MRO (overridden ones are reachable through super())
+    for c in core.mro():
+        for nm, m in c.methods.items():
+            if m.params():
+                meths[f"{c.name}.{nm}"] = m
+    key_of = {id(m.node): k for k, m in meths.items()}
+
+    def callee(m, c):
+        """key of the method of this very object that the call c (inside method m) runs, or None"""
+        fn = c.func
+        if not isinstance(fn, ast.Attribute):
+            return None
+        base, g = fn.value, None
+        if isinstance(base, ast.Name) and base.id == m.params()[0]:
+            g = core.resolve(fn.attr)
+        elif isinstance(base, ast.Call) and dotted(base.func) == "super" and m.cls is not None:
+            g = core.resolve_after(m.cls, fn.attr)
+        else:
+            d = dotted(base)
+            k = by_cls.get(d.rsplit(".", 1)[-1]) if d else None
+            if k is not None and c.args and norm(c.args[0]) == m.params()[0]:
+                g = k.resolve(fn.attr)
+        return key_of.get(id(g.node)) if g is not None else None
+
+    direct, calls = {}, {}
+    for k, m in meths.items():
+        me = m.params()[0]
+        direct[k] = {}
+        for s_ in iter_stores(m.node, include_nested=False):
+            if s_.kind == "assign" and s_.chain in [f"{me}.{t}" for t in tables] and s_.value is not None:
+                direct[k].setdefault(id(s_.stmt), []).append(s_.attr)
+        hs = {id(x) for h in walk_local(m.node) if isinstance(h, ast.ExceptHandler) for x in ast.walk(h)}
+        calls[k] = [(c, g, id(c) in hs) for c in iter_calls(m.node, include_nested=False) for g in [callee(m, c)] if g is not None and g != k]
+    # may-regenerate (anywhere in the body), closed over calls
+    may = {k: {t for fs in direct[k].values() for t in fs} for k in meths}
+    changed = True
+    while changed:
+        changed = False
+        for k in meths:
+            for _c, g, _h in calls[k]:
+                new = may[g] - may[k]
+                if new:
+                    may[k] |= new
+                    changed = True
+    # must-regenerate: least fixpoint upwards from the leaves
+    must = {k: set() for k in meths}
+
+    def decide(k):
+        cmap = {id(c): [t for t in tables if t in must[g]] for c, g, _h in calls[k]}
+        fl = Flow(meths[k].node, lambda n: direct[k].get(id(n), []) + cmap.get(id(n), [])).run()
+        ex = fl.normal_exits()
+        return {t for t in may[k] if ex and all(e.state.get(t, (0, 0))[0] >= 1 for e in ex)}
+    cand = [k for k in meths if may[k]]
+    changed = True
+    while changed:
+        changed = False
+        for k in cand:
+            got = decide(k)
+            if got - must[k]:
+                must[k] |= got
+                changed = True
+    n_leaf = 0
+    for k in cand:
+        m = meths[k]
+        leaf = bool(direct[k])
+        deleg = any(not h and may[g] for _c, g, h in calls[k])
+        if m.name == "__init__" or not (leaf or deleg):
+            continue
+        n_leaf += leaf
+        for t in sorted(may[k]):
+            # where the regeneration of t sits in this method, and under what
+            sites = [x for x in walk_local(m.node) if t in direct[k].get(id(x), [])] + [c for c, g, _h in calls[k] if t in may[g]]
+            conds = sorted({("" if pol else "not ") + f"({norm(tst)[:70]})" for x in sites for tst, pol in path_conditions(m.node, x)})
+            via = sorted({g for _c, g, _h in calls[k] if t in may[g]})
+            weak = [g for g in via if t not in must[g]]
+            why = f"under the condition(s) {conds}" if conds else (f"{weak} does not replace it on all of its paths" if weak else "a handler, loop body or early return bypasses it")
+            r.require(t in must[k], f"{k}:{t}:replaced-on-every-path", m, node=sites[0] if sites else None,
+                      msg=f"{k} regenerates `{t}`" + (f" through {via}" if via else "") + f" only on some paths ({why}): a normal path keeps the previous `{t}`.  "
+                          "A stale table that is neither missing nor empty is then kept - after Reactor.normalizeNames renamed the pool's assemblies, after unpickling / deepcopy or "
+                          "re-attached assemblies the lookup misses objects under their current names and still returns purged ones")
+    if n_leaf < 4:
+        raise AnchorMissing(f"leaf regenerators of the lookup tables in Core's MRO: {n_leaf} found, 4 expected")
+
+
 def run(idx, chk):
     chk.explanation = (
         "C14: who may write childrenByLocator/assembliesByName/blocksByName; Core.add/removeAssembly touching every table exactly once on "
@@ -668,3 +766,7 @@ def run(idx, chk):
                  necessary="a block inserted into an assembly is listed once, where it was put")
     chk.run_rule("R14.18", "one Flags value per stationary entry; assembly number 0 is a number; the pool keeps a pre-set cell of its own grid (R04.7)", lambda r: r18_flag_entries_number_zero_pool_place(idx, r), floor=3,
                  necessary="stationary blocks stay where they are; every assembly is found by its number and at its recorded place")
+    chk.run_rule("R14.19", "every routine that regenerates a lookup table - leaf (stores a whole new table) or delegating (calls such a routine outside an exception handler), closed transitively over Core's MRO - replaces the table on every normal path",
+                 lambda r: r19_regenerators_replace_the_table(idx, r), floor=13,
+                 necessary="'lookups by assembly and block name find every assembly and block in the core or the pool under its current name and never return one that was purged': a regeneration is "
+                           "requested exactly when the table may be stale, and staleness cannot be told from the table's content")
